@@ -3,7 +3,7 @@ import LenaModel.Model.Val
 `lena/meta/elements.py`, consumers in `lena/output/make_filename.py`, `write.py`, `lena/flow/cache.py`)
 
 The code as it is in /repo after the `fix:` commits dd35ba0 (SetContext copies), 47137d4 (a failing Split
-branch does not abort the others) and after `notes/C13_defect_4.patch` (the tail of a `Source` sets no
+branch does not abort the others) and 579340b (`notes/C13_defect_4.patch`: the tail of a `Source` sets no
 static context, so that a `Source` is a `LenaSequence` as far as static context is concerned).
 
 Contexts are slot vectors over the key alphabet of the case (`Model/Val.lean`): `n` keys, slot `i` of every
@@ -349,7 +349,7 @@ def mkSeq (n : Nat) (kind : Kind) (cs : List St) : St :=
 mutual
 /-- construction of the program, bottom-up as Python evaluates the constructor calls.  `LenaSplit.__init__`
 calls `_set_context({})`, which returns at once; the tail `Sequence` that `Source.__init__` creates sets no
-context (`notes/C13_defect_4.patch`). -/
+context (commit 579340b). -/
 def build (n : Nat) : Tree → St
   | .leaf e => initElem n e
   | .seq kind cs => mkSeq n kind (buildL n cs)
@@ -408,6 +408,104 @@ def foldB (n : Nat) : List Tree → Ctx → Except Nat (List Ctx)
         | .error e => .error e
         | .ok xs => .ok (x :: xs)
     else foldB n bs c
+end
+
+/-! ## run time: what the static context can do to the flow
+
+Flow values are `(data, context)` pairs with integer data.  `Sequence.run` composes the `run` of its data
+elements (`SetContext` and `StoreContext` have `_has_no_data` and are not part of it); the only elements
+whose `run` reads anything that `_set_context` stored are `UpdateContextFromStatic` and `MakeFilename`.
+`Write.run` passes data that is not a string on unchanged, `Cache.run` (no cache file yet, or
+`recompute=True`) yields the flow it dumps.  `Split.run` with `bufsize=None` materialises the flow in one
+buffer and yields the results of its branches in turn, each branch receiving a copy; a `Source` branch
+yields its own flow; a `Split` without branches yields the flow unchanged (split.py 283-420).
+`none` = outside the modelled domain (`context.output` is not a dictionary, an existing
+`output.prefix`/`suffix` is not a string). -/
+
+/-- slots of the keys that `MakeFilename` looks at -/
+structure OutKeys where
+  output : Nat
+  filename : Nat
+  pfx : Nat
+  sfx : Nat
+
+abbrev Item := Int × Ctx
+
+/-- `full_context.update(context)`: top-level keys of the second argument win -/
+def shallowUpdate : Ctx → Ctx → Ctx
+  | s, [] => s
+  | [], c => c
+  | x :: s, y :: c => (match y with | some v => some v | none => x) :: shallowUpdate s c
+
+/-- `del d[key]` -/
+def clearSlot : Ctx → Nat → Ctx
+  | [], _ => []
+  | _ :: r, 0 => none :: r
+  | x :: r, i + 1 => x :: clearSlot r i
+
+/-- `get_recursively(context, "output.<key>", "")` as a string to be concatenated; `none`: not a string -/
+def getAffix (ok : OutKeys) (ctx : Ctx) (key : Nat) : Option String :=
+  match getSlot ctx ok.output with
+  | some (.dict o) =>
+    match getSlot o key with
+    | none => some ""
+    | some (.leaf (.str s)) => some s
+    | some _ => none
+  | _ => some ""                                     -- `elif has_default: return default`
+
+/-- `if prefix: del context["output"]["prefix"]` -/
+def delAffix (ok : OutKeys) (ctx : Ctx) (key : Nat) (s : String) : Ctx :=
+  if s = "" then ctx
+  else
+    match getSlot ctx ok.output with
+    | some (.dict o) => setSlot ctx ok.output (some (.dict (clearSlot o key)))
+    | _ => ctx
+
+/-- `MakeFilename(t).__call__((data, ctx))` (make_filename.py 100-186, one method `filename`, not
+`overwrite`): the new context -/
+def mkfCall (n : Nat) (ok : OutKeys) (t : Tpl) (static : Option Ctx) (ctx : Ctx) : Option Ctx :=
+  let go : Option Ctx :=
+    -- `full_context = deepcopy(self._context); full_context.update(context)`
+    let full := match static with
+      | some s => shallowUpdate s ctx
+      | none => ctx
+    match fmt t full with
+    | .error _ => some ctx                           -- `except LenaKeyError: continue`
+    | .ok res =>
+      match getAffix ok ctx ok.pfx, getAffix ok ctx ok.sfx with
+      | some p, some s =>
+        let name := match res with
+          | .str r => Leaf.str (p ++ r ++ s)
+          | l => l
+        let ctx' := delAffix ok (delAffix ok ctx ok.pfx p) ok.sfx s
+        some (updL ctx' (single n ok.output [ok.filename] name))
+      | _, _ => none
+  match getSlot ctx ok.output with
+  | some (.leaf _) => none                           -- `key in context["output"]` on a scalar
+  | some (.dict o) => if (getSlot o ok.filename).isSome then some ctx else go
+  | none => go
+
+mutual
+/-- `el.run(flow)` (for a `Source`: `el()`), `srcFlow` being what the first element of a `Source` generates -/
+def run (n : Nat) (ok : OutKeys) (srcFlow : List Item) : St → List Item → Option (List Item)
+  | .ucfs c, f => some (f.map fun it => (it.1, updL it.2 c))   -- meta/elements.py 132-138
+  | .mkf t c, f => f.mapM fun it => (mkfCall n ok t c it.2).map fun x => (it.1, x)
+  | .src, _ => some srcFlow
+  | .seq _ cs _, f => runL n ok srcFlow cs f
+  | .split bs, f => if bs.isEmpty then some f else runB n ok srcFlow bs f
+  | _, f => some f
+def runL (n : Nat) (ok : OutKeys) (srcFlow : List Item) : List St → List Item → Option (List Item)
+  | [], f => some f
+  | el :: rest, f =>
+    match run n ok srcFlow el f with
+    | none => none
+    | some f' => runL n ok srcFlow rest f'
+def runB (n : Nat) (ok : OutKeys) (srcFlow : List Item) : List St → List Item → Option (List Item)
+  | [], _ => some []
+  | b :: bs, f =>
+    match run n ok srcFlow b f, runB n ok srcFlow bs f with
+    | some x, some y => some (x ++ y)
+    | _, _ => none
 end
 
 end Lena.C13
